@@ -51,6 +51,32 @@ class Sim:
             self.steps = 0
             self.events: List[Any] = []  # ("emit", OP) / ("stmt", node-object, [contexts on self.loop_stack])
 
+    def _py_eq(self, a: Any, b: Any, depth: int = 0) -> bool:
+        """Host equality of two simulated values: identity, or - for instances of a @dataclass of the repository (eq is
+        generated unless eq=False) - equality of every declared field."""
+        if a is b:
+            return True
+        if depth > 4:
+            return False
+        if isinstance(a, Obj) and isinstance(b, Obj):
+            ca, cb = getattr(a, "_cls", None), getattr(b, "_cls", None)
+            if ca is None or ca != cb or ca not in self.classes:
+                return False
+            cd = self.classes[ca]
+            decos = [norm(d) for d in cd.decorator_list]
+            if not any(d.split("(")[0].endswith("dataclass") for d in decos) or any("eq=False" in d.replace(" ", "") for d in decos):
+                return False
+            fields = [st.target.id for st in cd.body if isinstance(st, ast.AnnAssign) and isinstance(st.target, ast.Name)]
+            return all(self._py_eq(getattr(a, f, None), getattr(b, f, None), depth + 1) for f in fields)
+        if isinstance(a, (list, tuple)) and isinstance(b, (list, tuple)):
+            return len(a) == len(b) and all(self._py_eq(x, y, depth + 1) for x, y in zip(a, b))
+        if isinstance(a, Obj) or isinstance(b, Obj):
+            return False
+        try:
+            return a == b
+        except Exception:
+            return False
+
     def _construct(self, cname: str, e: ast.Call) -> "Obj":
         cd = self.classes[cname]
         o = Obj(_cls=cname)
@@ -199,6 +225,13 @@ class Sim:
             if isinstance(e.func, ast.Attribute) and e.func.attr in ("extend",) and e.args and isinstance(self.ev(e.func.value), list):
                 self.ev(e.func.value).extend(self.ev(e.args[0]))
                 return None
+            if fn == "next" and e.args:
+                seq = list(self.ev(e.args[0]))
+                if seq:
+                    return seq[0]
+                if len(e.args) > 1:
+                    return self.ev(e.args[1])
+                raise Aborted("StopIteration")
             if fn == "range":
                 return list(range(*[self.ev(a) for a in e.args]))
             if fn in ("enumerate",):
@@ -235,8 +268,16 @@ class Sim:
                 if isinstance(base, list):
                     base.append(self.ev(e.args[0]))
                 return None
-            if fn == "self.loop_stack.index" and e.args:
-                return self.ev(ast.Attribute(value=ast.Name(id="self", ctx=ast.Load()), attr="loop_stack", ctx=ast.Load())).index(self.ev(e.args[0]))
+            if isinstance(e.func, ast.Attribute) and e.func.attr == "index" and len(e.args) == 1:
+                base = self.ev(e.func.value)
+                if isinstance(base, (list, tuple)):
+                    # list.index compares with ==, and a dataclass compares field by field: two contexts with equal
+                    # fields ARE equal for the host, whatever the author meant
+                    needle = self.ev(e.args[0])
+                    for i_, el in enumerate(base):
+                        if self._py_eq(el, needle):
+                            return i_
+                    raise Aborted("ValueError: not in list")
             if fn in ("self._syntax_error", "SyntaxError", "JSSyntaxError"):
                 return Exception("syntax error")
             raise Unsupported(f"call {fn}")
@@ -246,7 +287,33 @@ class Sim:
             return tuple(self.ev(x) for x in e.elts)
         if isinstance(e, ast.List):
             return [self.ev(x) for x in e.elts]
+        if isinstance(e, (ast.ListComp, ast.GeneratorExp)):
+            return self._comprehension(e.elt, e.generators)
         raise Unsupported(type(e).__name__)
+
+    def _comprehension(self, elt: ast.AST, gens: List[ast.comprehension]) -> List[Any]:
+        """A list or generator comprehension, evaluated eagerly (the simulated code has no side effects in them)."""
+        out: List[Any] = []
+        saved = dict(self.env)
+
+        def rec(i: int) -> None:
+            if i == len(gens):
+                out.append(self.ev(elt))
+                return
+            g = gens[i]
+            for v in list(self.ev(g.iter)):
+                self._assign(g.target, v)
+                if all(self.ev(c) for c in g.ifs):
+                    rec(i + 1)
+
+        try:
+            rec(0)
+        finally:
+            for k in list(self.env):
+                if k not in saved:
+                    del self.env[k]
+            self.env.update(saved)
+        return out
 
     # ------------------------------------------------------------- statements
     def run(self, stmts: List[ast.stmt]) -> None:
